@@ -31,10 +31,6 @@ Definition clause_silent (c : case) : bool :=
   match c_exp c with IOk o => negb (contains silent_word o) | _ => true end
   && match c_comp c with IOk o => negb (contains silent_word o) | _ => true end.
 
-(* known class F28: the program reaches a comment that starts with `!` *)
-Definition known_bang (c : case) : bool :=
-  existsb is_bang (comments_in (fst (before_error (reach_program FUEL (c_prog c))))).
-
 (* known class: a comment directly in an at-rule body that bubbles through a style
    rule comes out before the nested rules that precede it (see C20) *)
 
@@ -42,4 +38,4 @@ Definition run (c : case) : list N :=
   [ corr_of (compile FUEL Expanded (c_prog c)) (c_exp c);
     corr_of (compile FUEL Compressed (c_prog c)) (c_comp c);
     b2n (clause_expanded c); b2n (clause_compressed c); b2n (clause_silent c);
-    b2n (known_bang c); b2n (known_ns_block (c_prog c)); b2n (known_reorder (c_prog c)) ].
+    b2n (known_ns_block (c_prog c)); b2n (known_reorder (c_prog c)) ].
